@@ -4,6 +4,7 @@ import (
 	"fmt"
 	"math/rand"
 	"runtime"
+	"strings"
 	"sync"
 	"time"
 
@@ -140,6 +141,148 @@ func checkC04(ctx *Ctx) {
 	}
 	c04SamplerLane(ctx)
 	c04SamplerRaceLane(ctx)
+	c04Interleave(ctx)
+	c04KeyspaceReaders(ctx)
+}
+
+// c04KeyspaceReaders: many keys whose deadline has passed but which are still stored (no sampler runs), writers
+// that re-create them without a deadline, and clients that meanwhile run the readers of the whole keyspace
+// (RANDOMKEY, KEYS *) and of single keys (TYPE, TTL, GET). Whatever those readers do about the expired entries
+// they come across - now or in a goroutine they leave behind - a key that was re-created (acknowledged SET,
+// no deadline) must still hold its new value when everything is at rest.
+func c04KeyspaceReaders(ctx *Ctx) {
+	rounds := ctx.N(3, 20)
+	for rd := 0; rd < rounds; rd++ {
+		ac := &asyncCounter{}
+		setHook(ac.hook)
+		in, err := NewInst(InstOpts{})
+		if err != nil {
+			setHook(nil)
+			ctx.Broken(err.Error())
+			return
+		}
+		nkeys := 800
+		for i := 0; i < nkeys; i++ {
+			in.Do("SET", fmt.Sprintf("kr%04d", i), "old", "PX", "10")
+		}
+		in.Clk.Advance(1e9)
+		var wg sync.WaitGroup
+		stop := make(chan struct{})
+		for g := 0; g < 3; g++ {
+			go func(g int) {
+				for i := 0; ; i++ {
+					select {
+					case <-stop:
+						return
+					default:
+					}
+					switch (i + g) % 5 {
+					case 0, 1, 2:
+						in.Do("RANDOMKEY")
+					case 3:
+						in.Do("KEYS", "kr0*")
+					default:
+						k := fmt.Sprintf("kr%04d", (i*37+g)%nkeys)
+						in.Do("TYPE", k)
+						in.Do("TTL", k)
+					}
+				}
+			}(g)
+		}
+		acked := make([]bool, nkeys)
+		for w := 0; w < 4; w++ {
+			wg.Add(1)
+			go func(w int) {
+				defer wg.Done()
+				for i := w; i < nkeys; i += 4 {
+					if v, _, crash := in.Do("SET", fmt.Sprintf("kr%04d", i), "new"); crash == "" && !v.IsError() {
+						acked[i] = true
+					}
+				}
+			}(w)
+		}
+		wg.Wait()
+		close(stop)
+		ac.wait(20 * time.Second)
+		time.Sleep(5 * time.Millisecond)
+		ac.wait(20 * time.Second)
+		setHook(nil)
+		d := in.S.VerifDump()
+		lost, first := 0, ""
+		for i := 0; i < nkeys; i++ {
+			if !acked[i] {
+				continue
+			}
+			k := fmt.Sprintf("kr%04d", i)
+			if v, ok := d.DBs[0][k]; !ok || v.Str != "new" || v.ExpireAt != 0 {
+				lost++
+				if first == "" {
+					first = fmt.Sprintf("%s is %+v (present=%v)", k, v.Str, ok)
+				}
+			}
+		}
+		in.Close()
+		ctx.Eval(1)
+		ctx.Class("keyspace-readers|expired-entries-recreated")
+		if lost > 0 {
+			ctx.Violate(Violation{Kind: "lost_write", Lane: "keyspace-readers",
+				What: fmt.Sprintf("%d of %d keys that were re-created without a deadline (acknowledged SET over an expired, still stored entry) while other clients ran RANDOMKEY / KEYS / TYPE / TTL do not hold their new value at rest; first: %s", lost, nkeys, first),
+				Case: map[string]interface{}{"keys": nkeys, "round": rd}, Key: "c04|keyspace-readers"})
+			return
+		}
+	}
+}
+
+// c04Interleave: a command that gives, moves or removes a deadline does so in two keyspace steps (value, then
+// deadline). It is parked at each of its steps while a reader of the key's deadline or existence (TTL, PTTL,
+// EXPIRETIME, PEXPIRETIME, TYPE, GET) is issued by another client; replies and final dataset must be those of
+// the reader running wholly before or wholly after the command (same-build serial oracle): a key must never
+// be seen with its value and without the deadline the same command gives it.
+func c04Interleave(ctx *Ctx) {
+	old := c05SetupCmds
+	defer func() { c05SetupCmds = old }()
+	c05SetupCmds = [][]string{{"SET", "a", "v", "EXAT", "1999999999"}, {"SET", "p", "v"}, {"RPUSH", "l", "x"}, {"EXPIREAT", "l", "1999999998"}}
+	writers := [][]string{
+		{"SET", "n", "v", "EXAT", "1999999990"}, {"SET", "p", "w", "PXAT", "1999999990000"}, {"SET", "a", "w"}, {"RENAME", "a", "b"}, {"RENAME", "l", "p"},
+		{"GETEX", "a", "PERSIST"}, {"GETEX", "p", "EXAT", "1999999991"}, {"EXPIREAT", "p", "1999999992"}, {"PERSIST", "a"}, {"GETDEL", "a"}, {"DEL", "a", "l"},
+	}
+	readers := []string{"TTL", "PTTL", "EXPIRETIME", "PEXPIRETIME", "TYPE", "GET"}
+	n := 0
+	for _, a := range writers {
+		for _, key := range []string{a[1], a[len(a)-1]} {
+			if key == a[len(a)-1] && (len(a) < 3 || strings.ToUpper(a[0]) != "RENAME") {
+				continue
+			}
+			for _, rd := range readers {
+				b := []string{rd, key}
+				ab := c05Serial(a, b)
+				baRaw := c05Serial(b, a)
+				ba := c05Outcome{ReplyA: baRaw.ReplyB, ReplyB: baRaw.ReplyA, State: baRaw.State}
+				for k := 1; k <= 8; k++ {
+					out, points, blocked, note := c05Paused(a, b, k)
+					if strings.HasPrefix(note, "watchdog") {
+						ctx.Inconclusive(note)
+						break
+					}
+					if note != "" || k > points {
+						break
+					}
+					n++
+					ctx.Eval(1)
+					ctx.Class(fmt.Sprintf("interleave|%s|%s|k=%d|blocked=%v", strings.ToLower(a[0]), strings.ToLower(rd), k, blocked))
+					if !sameOutcome(out, ab) && !sameOutcome(out, ba) {
+						ctx.Violate(Violation{Kind: "intermediate_state", Lane: "interleave",
+							What: fmt.Sprintf("%s was at its keyspace step %d of %d when another client sent %s: it replied %s (the command itself %s); running wholly before the command it replies %s, wholly after it %s",
+								Step{Argv: a}.String(), k, points, Step{Argv: b}.String(), out.ReplyB, out.ReplyA, ba.ReplyB, ab.ReplyB),
+							Case: map[string]interface{}{"setup": c05SetupCmds, "command": a, "reader": b, "parked_at_step": k},
+							Key:  fmt.Sprintf("c04|interleave|%s|%s", strings.ToLower(a[0]), strings.ToLower(rd))})
+						break
+					}
+				}
+			}
+		}
+	}
+	ctx.Count("interleavings", int64(n))
 }
 
 // c04SamplerRaceLane: many keys whose deadline has passed, the real sampler running with a sample as large
